@@ -35,6 +35,9 @@ type c09Case struct {
 	KeyForm string `json:"first_key_form,omitempty"`
 	// Monitor: a monitoring loop reads and resets the statistics every few rows while rows keep arriving
 	Monitor bool `json:"stats_reader_and_reset,omitempty"`
+	// ManualTrigger: the public TriggerWindow hook is called while keys hold partial batches; a counting window
+	// fires on the count only
+	ManualTrigger bool `json:"manual_trigger,omitempty"`
 }
 
 func genC09(ref core.CaseRef, r *rand.Rand) *c09Case {
@@ -117,6 +120,7 @@ func genC09(ref core.CaseRef, r *rand.Rand) *c09Case {
 		c.Strategy, c.Feed, c.Buffer = "expand", "burst", 4096
 	}
 	c.Monitor = ref.Index%9 == 2
+	c.ManualTrigger = ref.Index%9 == 5
 	sel := []string{}
 	for _, col := range c.Cols {
 		sel = append(sel, col)
@@ -153,6 +157,7 @@ func runC09(ctx *core.Ctx) {
 		execC09(ctx, c)
 	})
 	c09MixedStream(ctx)
+	c09TTLStream(ctx)
 	for k, v := range sched.Hits() {
 		ctx.Count("hook_hits."+k, v)
 	}
@@ -210,6 +215,14 @@ func execC09(ctx *core.Ctx, c *c09Case) {
 				if st := s.Stream(); st != nil {
 					st.ResetStats()
 				}
+			}
+		}
+	}
+	if c.ManualTrigger {
+		ctx.Count("cases_with_manual_trigger", 1)
+		ro.Each = func(s *streamsql.Streamsql, i int) {
+			if i%4 == 1 {
+				s.TriggerWindow()
 			}
 		}
 	}
